@@ -424,13 +424,24 @@ func DecodeUnverifiedBaseResponse(encodedResponse string) (*types.UnverifiedBase
 
 	err = maybeDeflate(raw, defaultMaxDecompressedResponseSize, func(maybeXML []byte) error {
 		response = &types.UnverifiedBaseResponse{}
-		return xml.Unmarshal(maybeXML, response)
+		return unmarshalUnverified(maybeXML, response)
 	})
 	if err != nil {
 		return nil, err
 	}
 
 	return response, nil
+}
+
+// unmarshalUnverified decodes XML like xml.Unmarshal, but accepts documents that
+// declare a non-UTF-8 encoding without converting them, as the validating path
+// (etree) does, so that both paths accept the same messages.
+func unmarshalUnverified(data []byte, v interface{}) error {
+	decoder := xml.NewDecoder(bytes.NewReader(data))
+	decoder.CharsetReader = func(charset string, input io.Reader) (io.Reader, error) {
+		return input, nil
+	}
+	return decoder.Decode(v)
 }
 
 // maybeDeflate invokes the passed decoder over the passed data. If an error is
@@ -507,7 +518,7 @@ func DecodeUnverifiedLogoutResponse(encodedResponse string) (*types.LogoutRespon
 
 	err = maybeDeflate(raw, defaultMaxDecompressedResponseSize, func(maybeXML []byte) error {
 		response = &types.LogoutResponse{}
-		return xml.Unmarshal(maybeXML, response)
+		return unmarshalUnverified(maybeXML, response)
 	})
 	if err != nil {
 		return nil, err
